@@ -14,7 +14,8 @@
 //	state | header | getpart <i> | read <chunk>     (chunk 0 = io.ReadAll, else a buffer of that size)
 //
 // mods, applied left to right: idx=<int> pidx=<int> ptot=<int> bytes=<hex> leaf=<hex>
-// flipb=<pos>:<mask> flipl=<pos>:<mask> flipa=<k>:<pos>:<mask> dropa adda=<hex> proof=<j> data=<j> nil
+// flipb=<pos>:<mask> flipl=<pos>:<mask> flipa=<k>:<pos>:<mask> dropa adda=<hex> proof=<j> data=<j>
+// releaf (LeafHash := leafHash(Bytes), i.e. a self-consistent forged leaf) nil
 //
 // Oracle (independent of the Lean model; evaluates the property statement):
 //   - own RFC-6962 audit-path verification (iterative, crypto/sha256) decides whether a part
@@ -35,7 +36,6 @@ import (
 	"encoding/hex"
 	"fmt"
 	"io"
-	"reflect"
 	"strconv"
 	"strings"
 
@@ -213,6 +213,8 @@ func mutated(is string, mods []string) *types.Part {
 				j := a[0] % len(p.Proof.Aunts)
 				p.Proof.Aunts[j] = flipAt(p.Proof.Aunts[j], a[1], byte(a[2]))
 			}
+		case "releaf":
+			p.Proof.LeafHash = oLeaf(p.Bytes)
 		case "dropa":
 			if n := len(p.Proof.Aunts); n > 0 {
 				p.Proof.Aunts = p.Proof.Aunts[:n-1]
@@ -763,7 +765,13 @@ func arrival(r *kit.Rand, total int, dupPct int) []int {
 
 func randMod(r *kit.Rand, i, total int) string {
 	j := r.Intn(total)
-	switch r.Intn(22) {
+	switch r.Intn(25) {
+	case 22:
+		return fmt.Sprintf("flipb=%d:%d releaf", r.Intn(5000), 1+r.Intn(255)) // forged content, self-consistent leaf hash
+	case 23:
+		return "bytes=" + kit.Hex(r.Bytes(r.Intn(9))) + " releaf"
+	case 24:
+		return fmt.Sprintf("data=%d releaf", j) // another part's content under this part's aunts
 	case 0:
 		return fmt.Sprintf("flipb=%d:%d", r.Intn(5000), 1+r.Intn(255))
 	case 1:
@@ -963,7 +971,51 @@ func genNilRoot(w *kit.Out, r *kit.Rand, id string, n, ps int) {
 	i := r.Intn(total)
 	w.Op("add %d", i)       // honest proof does not hash to an empty root: rejected
 	w.Op("add %d dropa", i) // aunt list too short → computed hash is nil → equals the empty root
+	k := (i + 1) % total
+	w.Op("add %d bytes=%s releaf dropa", k, hex.EncodeToString(r.Bytes(1+r.Intn(8)))) // arbitrary content
+	w.Op("getpart %d", k)
 	w.Op("state")
+}
+
+// every single-field confusion between two parts of a small block, exhaustively
+func genSmallExhaustive(w *kit.Out, r *kit.Rand, total int) {
+	ps := kit.Pick(r, []int{1, 2, 3})
+	n := total*ps - r.Intn(ps)
+	w.Case(fmt.Sprintf("small-exhaustive/t%d/ps%d", total, ps))
+	w.Op("make %s %d", kit.Hex(r.Bytes(n)), ps)
+	w.Op("fromheader")
+	// half of the slots already filled, so that every confusion meets both an empty and a full slot
+	for i := 0; i < total; i += 2 {
+		w.Op("add %d", i)
+	}
+	for i := 0; i < total; i++ {
+		for j := -1; j <= total; j++ {
+			if j != i {
+				w.Op("add %d idx=%d", i, j)
+				w.Op("add %d pidx=%d", i, j)
+				w.Op("add %d idx=%d pidx=%d", i, j, j)
+				w.Op("add %d ptot=%d", i, j+1)
+			}
+			if j >= 0 && j < total && j != i {
+				w.Op("add %d proof=%d", i, j)
+				w.Op("add %d data=%d", i, j)
+				w.Op("add %d data=%d releaf", i, j)
+				w.Op("add %d idx=%d pidx=%d data=%d releaf", i, j, j, j)
+				w.Op("add %d idx=%d pidx=%d proof=%d", i, j, j, j)
+			}
+		}
+		w.Op("add %d dropa", i)
+		w.Op("add %d adda=%s", i, hex.EncodeToString(r.Bytes(32)))
+		for k := 0; k < 4; k++ {
+			w.Op("add %d flipa=%d:%d:%d", i, k, r.Intn(32), 1<<uint(r.Intn(8)))
+		}
+		w.Op("state")
+	}
+	for i := 1; i < total; i += 2 {
+		w.Op("add %d", i)
+	}
+	w.Op("state")
+	w.Op("read 0")
 }
 
 func gen(w *kit.Out, r *kit.Rand, tier string) {
@@ -992,11 +1044,18 @@ func gen(w *kit.Out, r *kit.Rand, tier string) {
 		genHonest(w, rb, fmt.Sprintf("shape/t%d/ps%d", total, ps), n, ps)
 		genCorrupt(w, rb, fmt.Sprintf("shape-corrupt/t%d/ps%d", total, ps), n, ps, 40)
 	}
+	maxSmall := 6
+	if thorough {
+		maxSmall = 12
+	}
+	for total := 1; total <= maxSmall; total++ {
+		genSmallExhaustive(w, rb, total)
+	}
 	// (ii) structured random: mostly valid
 	rr := r.Fork()
-	nr := 60
+	nr := 120
 	if thorough {
-		nr = 500
+		nr = 1200
 	}
 	for c := 0; c < nr; c++ {
 		ps := kit.Pick(rr, partSizes)
@@ -1022,9 +1081,9 @@ func gen(w *kit.Out, r *kit.Rand, tier string) {
 	}
 	// (iii) malformed stream
 	rm := r.Fork()
-	nm := 25
+	nm := 40
 	if thorough {
-		nm = 200
+		nm = 400
 	}
 	for c := 0; c < nm; c++ {
 		ps := kit.Pick(rm, partSizes)
@@ -1041,6 +1100,5 @@ func gen(w *kit.Out, r *kit.Rand, tier string) {
 }
 
 func main() {
-	_ = reflect.DeepEqual
 	kit.Main(&kit.Harness{Gen: gen, Reset: reset, Exec: exec})
 }
